@@ -209,6 +209,14 @@ func Eq(a, b *Term) *Term {
 	if a.String() == b.String() {
 		return tTrue
 	}
+	if x, ok := intVal(a); ok {
+		if y, ok := intVal(b); ok {
+			if x == y {
+				return tTrue
+			}
+			return tFalse
+		}
+	}
 	if a.Sort != b.Sort {
 		panic(fmt.Sprintf("Eq: sort mismatch %s:%s vs %s:%s", a, a.Sort, b, b.Sort))
 	}
